@@ -158,6 +158,14 @@ func (e *Error) getIndicator(line string) string {
 	return fmt.Sprintf("%s^%s", strings.Repeat(" ", sw), strings.Repeat("~", uw))
 }
 
+var lineBreaksReplacer = strings.NewReplacer("\r\n", " ", "\n", " ", "\r", " ", "\u0085", " ", "\u2028", " ", "\u2029", " ")
+
+// replaceLineBreaks replaces all line breaks in the string with white spaces. It is used for embedding an error
+// message from libraries in a message of Error since the message must be in one line.
+func replaceLineBreaks(s string) string {
+	return lineBreaksReplacer.Replace(s)
+}
+
 // ByErrorPosition is predicate for sort.Interface. It sorts errors slice by file path, line, and
 // column.
 type ByErrorPosition []*Error
